@@ -103,6 +103,17 @@ def gen(ctx):
                     pass
                 n += 1
                 cases.append(mk_case("c20q_%d" % n, [("query", cmd_query(kw + nm + suf)), ("ping", cmd_ping())], ["i ok", "q done 0 0"]))
+    # a statement with bound types, then an execution whose new-params-bound byte is neither 0 nor 1, followed by
+    # bytes that would be acceptable as values of the old types (or as a type table, or neither)
+    for flag in (2, 3, 0x7f, 0x80, 0xfe, 0xff):
+        for tail in (bytes.fromhex("f0000100"), le(7, 4), bytes.fromhex("0300") + le(7, 4), bytes.fromhex("fd00") + b"abc", b"", b"\x03", bytes(8)):
+            n += 1
+            first = exec_block([False], [(3, False)], [le(42, 4)])
+            second = b"\x00" + bytes([flag]) + tail
+            cases.append(mk_case("c20b_%d" % n, [("prepare", cmd_prepare(b"p")), ("execute", cmd_execute(1, first)),
+                                                ("execute", cmd_execute(1, second)), ("ping", cmd_ping())],
+                                 ["p reply 1 %s 0" % progs.cols_tok([dict(table=b"", name=b"?", type=253, flags=0)]),
+                                  "x all - done 0 0", "x all - done 0 0"]))
     # fragment ids out of order (small limit)
     for ids in ([0, 1, 2], [0, 2, 3], [5, 5, 6], [255, 0, 1], [255, 1, 2], [0, 1, 1]):
         n += 1
